@@ -10,6 +10,7 @@ import (
 	"errors"
 	"fmt"
 	"strings"
+	"time"
 	"unicode/utf8"
 
 	pipeline "github.com/buildkite/go-pipeline"
@@ -170,11 +171,14 @@ type c13outcome struct {
 	kind, detail, class string
 }
 
+// hangLimit is the hang limit of the case being judged (lowered for families whose cost is known to be tiny).
+var hangLimit = report.HangAfter
+
 func c13judge(w *report.W, text string) c13outcome {
 	var p *pipeline.Pipeline
 	var err error
 	if w != nil {
-		w.Guard(text)
+		w.GuardFor(text, hangLimit)
 		defer w.Unguard()
 	}
 	if pan := report.Catch(func() { p, err = pipeline.Parse(strings.NewReader(text)) }); pan != "" {
@@ -350,6 +354,12 @@ func c13run(w *report.W) {
 			record("steps:\n  - command: "+sx+"\n", "[raw bytes in a command] ", depth+3)
 			record(sx+": x\nsteps: []\n", "[raw bytes as a key] ", depth+3)
 			record("steps:\n  - "+sx+"\n  - wait\n", "[raw bytes as a step] ", depth+3)
+			if utf8.ValidString(sx) {
+				// the same characters as an escaped JSON string: a key of the order-preserving mappings (pipeline env, an unknown
+				// field of a step, an unknown step) and a value
+				q, _ := json.Marshal(sx)
+				record(`{"env":{`+string(q)+`:"v"},"steps":[{"command":"c","agents":{`+string(q)+`:1,"n":{`+string(q)+`:`+string(q)+`}}},{`+string(q)+`:{"n":1}}]}`, "[escaped characters as keys] ", depth+4)
+			}
 		}
 		if depth == maxRaw || len(w.P.HarnessErrors) > 0 {
 			return
@@ -429,6 +439,17 @@ func c13run(w *report.W) {
 	ex3.Explore()
 	for i, t := range c07fixed {
 		record(t, fmt.Sprintf("[anchors fixed #%d] ", i), 30)
+		record("steps:\n  - command: c\n    "+strings.ReplaceAll(strings.TrimSpace(t), "\n", "\n    ")+"\n", fmt.Sprintf("[anchors fixed #%d inside a step] ", i), 40)
+	}
+	// layered merges (see C07): 2..80 layers, as top-level keys and inside a step; each must parse within 90 s
+	for _, n := range c07layerCounts {
+		for _, twice := range []bool{false, true} {
+			t := c07layered(n, twice)
+			hangLimit = 90 * time.Second
+			record(t+"steps: []\n", fmt.Sprintf("[%d layered merges] ", n), 30+n)
+			record("steps:\n  - command: c\n    "+strings.ReplaceAll(strings.TrimSpace(t), "\n", "\n    ")+"\n", fmt.Sprintf("[%d layered merges inside a step] ", n), 40+n)
+			hangLimit = report.HangAfter
+		}
 	}
 	if w.Shard == 0 {
 		w.P.Bounds["anchor_grammar"] = fmt.Sprintf("%d documents of the C07 grammar (<=%d deviations), as top-level mapping and inside a command step", ex3.Stats.Executions, c07bound)
@@ -457,7 +478,7 @@ func init() {
 		ID:               "C13",
 		CrashIsViolation: true,
 		Rule: "(i) every concatenation of <=5 (quick) / <=6 (thorough) tokens over a 22-token alphabet (steps:, '- ', newline, indent, command: a, wait, group: g, &x, *x, <<:, [ ] { } ':' '\"' a ~ !!binary ? , .inf); " +
-			"(iii) the C07 anchor / alias / merge grammar (<=3/4 deviations, incl. cycles) as a top-level document and inside a command step; (iv) every byte string of <=2/3 bytes over 46 YAML-significant / control / non-UTF-8 bytes, alone and at three positions of a document; " +
+			"(iii) the C07 anchor / alias / merge grammar (<=3/4 deviations, incl. cycles) as a top-level document and inside a command step, C07's hand-written cycle shapes and its layered merges of 2..80 layers (must parse within 90 s); (iv) every byte string of <=2/3 bytes over 46 YAML-significant / control / non-UTF-8 bytes, alone, at three positions of a document and (valid UTF-8 only) as an escaped JSON string used as key of the pipeline env, of nested unknown fields and of an unknown step; " +
 			"(ii) every generated pipeline document (<=1/2 deviations) and two base documents with every node replaced in turn by each of 12 values (null, string, int, bool, timestamp, [], [x], {}, {k: v}, [[x]], float, " +
 			"{steps: [wait]}), rendered as YAML or JSON. Oracle: Parse returns (fatal crashes and hangs are caught by a per-case journal / watchdog), never panics, and yields a hard error or a pipeline (+ warning); if usable: non-nil " +
 			"step list with one non-nil step per entry of the input step sequence (counted by an independent walk of yaml.v3's node graph with merges resolved), recursively inside groups; unknown steps marshal back to the input " +
